@@ -72,18 +72,14 @@ Theorem C20_sockets : forall e l, check_sockets e l = true <-> socks_conflict e 
 Proof. exact check_sockets_spec. Qed.
 Print Assumptions C20_sockets.
 
-(* ---------- address families (kf_c20_both_families_disabled) ---------- *)
-Theorem C20_families_partial : forall ipv4 ipv6 h6,
-  ipv4 || ipv6 = true -> families_refused ipv4 ipv6 h6 = false ->
-  honours ipv4 ipv6 (families_value ipv4 ipv6 h6).
-Proof. exact families_partial. Qed.
-Print Assumptions C20_families_partial.
-
-Theorem C20_families_refuted :
-  families_refused false false true = false /\ families_value false false true = FamUnspec
-  /\ ~ families_statement.
-Proof. exact families_refuted. Qed.
-Print Assumptions C20_families_refuted.
+(* ---------- address families ---------- *)
+(* ipv4=False together with ipv6=False is refused; otherwise the family handed to getaddrinfo
+   allows IPv4 iff ipv4 and IPv6 iff ipv6 (AF_UNSPEC allows both) *)
+Theorem C20_families : forall ipv4 ipv6 h6,
+  (ipv4 = false -> ipv6 = false -> families_refused ipv4 ipv6 h6 = true)
+  /\ (families_refused ipv4 ipv6 h6 = false -> honours ipv4 ipv6 (families_value ipv4 ipv6 h6)).
+Proof. exact families_full. Qed.
+Print Assumptions C20_families.
 
 (* ---------- host/port override, boolean spellings, the defaults the model reads ---------- *)
 Theorem C20_hostport : forall hm pm, hostport_override hm pm = hostport_spec hm pm.
@@ -106,7 +102,7 @@ Print Assumptions C20_defaults.
 (* ---------- nothing that is accepted carries one of the listed conflicts ---------- *)
 (* for every keyword dictionary: if the model of Adjustments.__init__ accepts it, then no two
    exclusive groups are present, every name is a parameter, the proxy options are consistent,
-   the socket list is homogeneous and supported, and (outside the known finding) the address
+   the socket list is homogeneous and supported, at least one address family is enabled and the
    family handed to getaddrinfo honours ipv4 / ipv6 *)
 Theorem C20_accepted_sound : forall e kw a', construct e kw = Ok a' ->
   exists a, assign_loop kw [] = Ok a /\ accepted_ok e kw a.
